@@ -1,6 +1,7 @@
 """C07 - account data can be re-borrowed within an instruction after any resize history."""
 ID = "C07"
 ENTRY = "c07"
+GROUP = "acct"
 BIN = "vh_c07"
 COQ_TARGETS = ["Properties/C07.vo"]
 MAX_INC = 10240
